@@ -868,6 +868,7 @@ pub fn do_special(w: &mut World, kind: &str, a: u64, b: u64, c: u64) -> VResult<
         "x509_case" => crate::x509sim::do_x509_case(w, a, b, c),
         "nm_propose" => do_nm_propose(w, a as usize, b as usize),
         "xgroup" => do_xgroup(w, a as usize, b),
+        "late_seq" => do_late_seq(w, a as usize, b as usize),
         "obs_snapshot" => crate::observer::do_obs_snapshot(w, a as usize),
         "obs_stale_ref" => crate::observer::do_obs_stale_ref(w, a as usize, b),
         "obs_propose" => crate::observer::do_obs_propose(w, a as usize, b, c as usize),
@@ -891,6 +892,23 @@ pub fn do_special(w: &mut World, kind: &str, a: u64, b: u64, c: u64) -> VResult<
                 w.send_app_inner(p, 0, 3, 0, false)?;
             }
             w.send_app_inner(p, 0, 5, 1, true)?;
+            if c > 0 {
+                // one receiver takes the overtaking message, stores the group with all the skipped keys in it, and
+                // comes back from storage before the late messages arrive
+                let epoch = w.epoch_of(p, 0);
+                let receivers: Vec<usize> = w.live_members(0).into_iter().filter(|q| *q != p && w.epoch_of(*q, 0) == epoch).collect();
+                if let Some(q) = receivers.get((c as usize - 1) % receivers.len().max(1)).copied() {
+                    if let Some(id) = w.parties[q].mems[0].inbox.first().copied() {
+                        if w.msgs[&id].sender == p && w.msgs[&id].kind == MsgKind::App {
+                            w.deliver_one(q, 0, id, true)?;
+                            w.do_write(q, 0)?;
+                            w.do_crash(q)?;
+                            w.do_reload(q, 0)?;
+                            w.stats.probe("reload-with-skipped-keys-stored");
+                        }
+                    }
+                }
+            }
             Ok(true)
         }
         _ => Ok(false),
@@ -1759,11 +1777,13 @@ pub fn expect_msg(w: &World, p: usize, g: usize, id: u64) -> Expect {
                 return Expect::MustErr;
             }
             if msg.epoch < epoch {
-                if !w.cfg.oracle("retention") {
-                    return Expect::May;
-                }
+                // whatever the retention model says: a message this member has accepted (and has not lost again in a
+                // crash) is never accepted a second time
                 if mem.accepted.contains(&id) {
                     return Expect::MustErr;
+                }
+                if !w.cfg.oracle("retention") {
+                    return Expect::May;
                 }
                 if !retained(w, p, g, msg.epoch) {
                     return Expect::MustErr;
@@ -2132,4 +2152,32 @@ pub fn do_xgroup(w: &mut World, p: usize, pick: u64) -> VResult<bool> {
             Ok(true)
         }
     }
+}
+
+/// C05 / C19: p takes a late message of a newer past epoch, then one of an older past epoch, then is offered the first
+/// one again - all without storing in between. The replay must be refused.
+pub fn do_late_seq(w: &mut World, p: usize, g: usize) -> VResult<bool> {
+    if !w.live(p, g) {
+        return Ok(false);
+    }
+    let epoch = w.epoch_of(p, g).unwrap();
+    let inbox: Vec<u64> = w.parties[p].mems[g].inbox.clone();
+    let mut by_epoch: BTreeMap<u64, u64> = BTreeMap::new();
+    for id in inbox {
+        let m = &w.msgs[&id];
+        if m.kind == MsgKind::App && m.epoch < epoch && expect_msg(w, p, g, id) != Expect::MustErr && w.parties[p].mems[g].ret_disk.contains(&m.epoch) {
+            by_epoch.entry(m.epoch).or_insert(id);
+        }
+    }
+    if by_epoch.len() < 2 {
+        return Ok(false);
+    }
+    let (_, newer) = by_epoch.iter().next_back().map(|(e, i)| (*e, *i)).unwrap();
+    let (_, older) = by_epoch.iter().next().map(|(e, i)| (*e, *i)).unwrap();
+    w.stats.probe("late-messages-of-two-stored-epochs-then-replay");
+    w.deliver_one(p, g, newer, true)?;
+    w.deliver_one(p, g, older, true)?;
+    w.stats.fault("N-DUP");
+    w.deliver_one(p, g, newer, false)?;
+    Ok(true)
 }
